@@ -26,7 +26,12 @@ package confirm
 //@   ensures[C18] load_error_outcome: each Store.LoadByConfirmSelector(_) -> (_, ?e) => (e != nil && e != ErrUserNotFound) ==> (result == e && !emits Store.Save(_))
 //@
 //@ func (*Confirm).PreventAuth
-//@   property C03 C18 C17
+//@   property C03 C16 C18 C17
+//@   -- C16(a): for a confirmed account the handler is transparent - the answer of a login
+//@   -- attempt is decided by the other modules alone
+//@   ensures[C16] confirmed_transparent: (!panics && ctxuser(r) != nil && Confirmed(ctxuser(r))) ==>
+//@       (result.0 == false && result.1 == nil && !emits Redirect(_) && !emits Respond(_, _, _) && !emits Sess.Put(_, _) && !emits Sess.Del(_) &&
+//@        !emits Cook.Put(_, _) && !emits Cook.Del(_) && !emits HeaderSet(_, _, _) && !emits WriteHeader(_, _) && !emits Write(_, _) && !emits HTTPRedirect(_, _, _))
 //@   ensures[C17] no_secret_leak: secrets_clean
 //@   -- the login may only continue (false, nil) for a confirmed account
 //@   ensures[C03] veto_unconfirmed: (result.0 == false && result.1 == nil) ==>
